@@ -153,12 +153,111 @@ def templates_in(node):
     return out
 
 
+def path_template(node, value_of):
+    """Concatenated writer templates executed along one path of `node`: `value_of(cond)` gives the truth value a condition has on that
+    path (None: not a condition the caller knows).  Understands if/else in either polarity, `if .. { return write!(..) }` followed by
+    the other case, `match <cond> { true => .., false => .. }`, `?`, early `return`, a conditional prefix followed by a common tail.
+    Any other control flow that contains a writer is NotUnderstood."""
+    out = []
+
+    def truth_of(c):
+        neg = False
+        while c is not None and c.get("k") == "un" and c["op"] == "!":
+            neg, c = not neg, c["e"]
+        t = value_of(c)
+        if t is None:
+            return None
+        return t != neg
+
+    def run(n):
+        """returns True when the path has left the function"""
+        if n is None:
+            return False
+        if isinstance(n, list):
+            for x in n:
+                if run(x):
+                    return True
+            return False
+        k = n.get("k")
+        if k in ("macro", "mcall"):
+            t = write_template(n)
+            if t is not None:
+                out.extend(t)
+                return False
+        if k == "block":
+            for st in n["stmts"]:
+                if st["k"] == "let":
+                    if run(st.get("init")):
+                        return True
+                elif st["k"] == "expr":
+                    if run(st["e"]):
+                        return True
+            return False
+        if k == "if":
+            tv = truth_of(n["cond"])
+            if tv is None:
+                if templates_in(n):
+                    raise NotUnderstood("writer under the condition %s" % expr_text(n["cond"]))
+                return False
+            return run(n["then"] if tv else n["else"])
+        if k == "match":
+            tv = truth_of(n["e"])
+            if tv is not None:
+                for arm in n["arms"]:
+                    p = arm["pat"]
+                    if p["k"] == "lit" and p["e"].get("t") == "bool" and arm["guard"] is None:
+                        if bool(p["e"]["v"]) == tv or p["e"]["v"] in ("true" if tv else "false",):
+                            return run(arm["body"])
+                    elif p["k"] in ("wild", "ident") and arm["guard"] is None:
+                        return run(arm["body"])
+                raise NotUnderstood("match on the condition without a %s arm" % tv)
+            if templates_in(n):
+                raise NotUnderstood("writer inside match %s" % expr_text(n["e"]))
+            return False
+        if k == "return":
+            run(n.get("e"))
+            return True
+        if k in ("for", "while", "loop", "closure"):
+            if templates_in(n):
+                raise NotUnderstood("writer inside %s" % k)
+            return False
+        for key, v in n.items():
+            if key not in ("tokens", "k") and isinstance(v, (dict, list)):
+                if run(v):
+                    return True
+        return False
+
+    run(node)
+    # adjacent literals merge
+    merged = []
+    for x in out:
+        if x[0] == "lit" and merged and merged[-1][0] == "lit":
+            merged[-1] = ("lit", merged[-1][1] + x[1])
+        else:
+            merged.append(x)
+    return merged
+
+
 def conjuncts(e):
     if e is None:
         return []
     if e.get("k") == "bin" and e["op"] == "&&":
         return conjuncts(e["l"]) + conjuncts(e["r"])
     return [e]
+
+
+_FLIP = {">": "<", "<": ">", ">=": "<=", "<=": ">=", "==": "==", "!=": "!="}
+
+
+def cmp_norm(c):
+    """comparison with an integer literal, literal on the right: (op, expr, n) — `2 <= x.len()` reads as `x.len() >= 2`; else None"""
+    if c is None or c.get("k") != "bin" or c["op"] not in _FLIP:
+        return None
+    if lit_int(c["r"]) is not None and c["r"].get("k") == "lit":
+        return c["op"], c["l"], lit_int(c["r"])
+    if lit_int(c["l"]) is not None and c["l"].get("k") == "lit":
+        return _FLIP[c["op"]], c["r"], lit_int(c["l"])
+    return None
 
 
 def is_path(e, name=None):
@@ -338,9 +437,9 @@ def parse_table_keyname(fn):
                   and len(c["args"]) == 1 and c["args"][0].get("t") == "char"]
             if sw:
                 prefix = chr(sw[0]["args"][0]["v"])
-                len_ok = any(c.get("k") == "bin" and c["op"] in (">", ">=") and c["l"].get("k") == "mcall" and c["l"]["m"] == "len"
-                             and is_path(c["l"]["recv"]) and c["l"]["recv"]["p"] in (var, param)
-                             and lit_int(c["r"]) == (1 if c["op"] == ">" else 2) for c in g)
+                len_ok = any(cn is not None and cn[0] in (">", ">=", "!=") and cn[1].get("k") == "mcall" and cn[1]["m"] == "len"
+                             and is_path(cn[1]["recv"]) and cn[1]["recv"]["p"] in (var, param)
+                             and cn[2] == {">": 1, ">=": 2, "!=": 1}[cn[0]] for cn in map(cmp_norm, g))
                 digits = None
                 for c in g:
                     if c.get("k") == "mcall" and c["m"] == "all" and c["recv"].get("k") == "mcall" and c["recv"]["m"] == "chars":
@@ -363,8 +462,8 @@ def parse_table_keyname(fn):
                 rows.append({"kind": "fkey", "prefix": prefix, "variant": v[0][:-4], "len_gt": len_ok, "line": arm["line"]})
                 continue
             # --- single character arm: v.chars().count() == 1
-            cnt = [c for c in g if c.get("k") == "bin" and c["op"] == "==" and lit_int(c["r"]) == 1 and chain(c["l"])[1] == ["chars", "count"]
-                   and is_path(chain(c["l"])[0]) and chain(c["l"])[0]["p"] in (var, param)]
+            cnt = [c for c, cn in ((c, cmp_norm(c)) for c in g) if cn is not None and cn[0] == "==" and cn[2] == 1 and chain(cn[1])[1] == ["chars", "count"]
+                   and is_path(chain(cn[1])[0]) and chain(cn[1])[0]["p"] in (var, param)]
             if cnt and len(g) == 1:
                 inner = first_match(arm["body"], lambda n: True)
                 if inner is None or not is_path(inner["e"]):
@@ -574,10 +673,11 @@ def judge_site(site, fn):
         # I1: X.chars().next().unwrap() under X.chars().count() == N (N >= 1)  |  !X.is_empty()
         if ms == ["chars", "next"] and is_path(root) and root["p"] not in muts:
             for f in facts:
-                if f.get("k") == "bin" and f["op"] in ("==", ">=", ">") and chain(f["l"])[1] == ["chars", "count"] and expr_text(chain(f["l"])[0]) == expr_text(root):
-                    v = lit_int(f["r"])
-                    if v is not None and (v >= 1 or (f["op"] == ">" and v >= 0)):
-                        return ("I1:count>=1", "%s.chars().count() %s %d implies the first next() is Some" % (root["p"], f["op"], v))
+                fn_ = cmp_norm(f)
+                if fn_ is not None and fn_[0] in ("==", ">=", ">") and chain(fn_[1])[1] == ["chars", "count"] and expr_text(chain(fn_[1])[0]) == expr_text(root):
+                    v = fn_[2]
+                    if v is not None and (v >= 1 or (fn_[0] == ">" and v >= 0)):
+                        return ("I1:count>=1", "%s.chars().count() %s %d implies the first next() is Some" % (root["p"], fn_[0], v))
                 if f.get("k") == "un" and f["op"] == "!" and chain(f["e"])[1] == ["is_empty"] and expr_text(chain(f["e"])[0]) == expr_text(root):
                     return ("I1:non-empty", "!%s.is_empty() implies the first next() is Some" % root["p"])
         return None
@@ -779,6 +879,14 @@ def run(ctx):
                 raise NotUnderstood("expected one for loop in KeyMod Debug")
             lp = fors[0]
             arr = unref(lp["iter"])
+            r_it, ms_it = chain(arr) if arr.get("k") == "mcall" else (arr, [])
+            if ms_it and set(ms_it) <= {"iter", "into_iter", "copied", "cloned"}:
+                arr = unref(r_it)
+            if is_path(arr):
+                # a named table (const / static) instead of the literal
+                cst = src.const(arr["p"].split("::")[-1], file=KEYS) or src.const(arr["p"].split("::")[-1], file=KEYS, impl_self="KeyMod")
+                if cst is not None:
+                    arr = unref(cst[1]["expr"])
             if arr.get("k") != "array" or lp["pat"]["k"] not in ("tuple", "ref"):
                 raise NotUnderstood("KeyMod Debug does not iterate a literal array of (flag, name)")
             pt = lp["pat"]["pat"] if lp["pat"]["k"] == "ref" else lp["pat"]
@@ -790,15 +898,29 @@ def run(ctx):
                 mod_print.append((el["elems"][0]["p"].split("::")[-1], el["elems"][1]["v"], el["line"]))
             if not find_all(lp["body"], lambda n: n.get("k") == "mcall" and n["m"] == "contains" and is_path(unref(n["args"][0]), fvar)):
                 raise NotUnderstood("loop body does not test self.contains(flag)")
-            seps = set()
-            for node, tpl in templates_in(lp["body"]):
-                holes = [x for x in tpl if x[0] == "hole"]
-                if len(holes) != 1 or not is_path(unref(holes[0][1]), nvar) or holes[0][2] != "" or tpl[-1][0] != "hole":
-                    raise NotUnderstood("KeyMod Debug template %s" % (tpl,))
-                seps.add("".join(x[1] for x in tpl if x[0] == "lit"))
-            if len(seps) != 2 or "" not in seps:
-                raise NotUnderstood("KeyMod Debug: expected a first-name template and a separator template, got %s" % sorted(seps))
-            mod_sep = [s for s in seps if s][0]
+            # what is written for the first printed modifier and for a later one, whatever the control flow around the `first` flag
+            flags = [st for st in find_all(mod_dbg, lambda n: n.get("k") == "let" and n["pat"]["k"] == "ident" and n["pat"].get("mut")
+                                           and n.get("init") is not None and n["init"].get("k") == "lit" and n["init"].get("t") == "bool")]
+            if len(flags) != 1:
+                raise NotUnderstood("KeyMod Debug: expected one boolean first/separator flag")
+            fname, finit = flags[0]["pat"]["name"], bool(flags[0]["init"]["v"])
+
+            def in_loop(first):
+                def value_of(c):
+                    if is_path(c, fname):
+                        return finit if first else (not finit)
+                    if c is not None and c.get("k") == "mcall" and c["m"] == "contains":
+                        return True
+                    return None
+                return path_template(lp["body"], value_of)
+            t_first, t_rest = in_loop(True), in_loop(False)
+
+            def name_only(t):
+                return len(t) == 1 and t[0][0] == "hole" and is_path(unref(t[0][1]), nvar) and t[0][2] == ""
+            if not name_only(t_first) or len(t_rest) != 2 or t_rest[0][0] != "lit" or not name_only(t_rest[1:]):
+                raise NotUnderstood("KeyMod Debug: expected <name> for the first modifier and <separator><name> afterwards, got %s / %s"
+                                    % ([x[:1] + ((expr_text(x[1]),) if x[0] == "hole" else (x[1],)) for x in t_first], [x[:1] + ((expr_text(x[1]),) if x[0] == "hole" else (x[1],)) for x in t_rest]))
+            mod_sep = t_rest[0][1]
         except NotUnderstood as e:
             ctx.anchor("MOD-ROUNDTRIP", "KeyMod::Debug", str(e))
             mod_print = None
@@ -886,23 +1008,21 @@ def run(ctx):
         ctx.anchor("SEPARATORS", "Key::Debug")
     else:
         try:
-            ifs = find_all(key_dbg, lambda n: n.get("k") == "if")
-            if len(ifs) != 1:
-                raise NotUnderstood("expected one if in Key Debug")
-            c = ifs[0]["cond"]
-            neg = False
-            if c.get("k") == "un" and c["op"] == "!":
-                neg, c = True, c["e"]
-            if not (c.get("k") == "mcall" and c["m"] == "is_empty" and expr_text(c["recv"]) == "self.mode"):
-                raise NotUnderstood("condition %s" % expr_text(c))
-            empty_b, full_b = (ifs[0]["else"], ifs[0]["then"]) if neg else (ifs[0]["then"], ifs[0]["else"])
-
-            def flat(b):
-                out = []
-                for _, t in templates_in(b):
-                    out += t
-                return out
-            et, ft = flat(empty_b), flat(full_b)
+            def mode_empty(c):
+                if c is not None and c.get("k") == "mcall" and c["m"] == "is_empty" and not c["args"] and expr_text(unref(c["recv"])) == "self.mode":
+                    return True
+                if c is not None and c.get("k") == "bin" and c["op"] in ("==", "!=") and {expr_text(unref(c["l"])), expr_text(unref(c["r"]))} in ({"self.mode", "KeyMod::EMPTY"}, {"self.mode", "Self::EMPTY"}):
+                    return c["op"] == "=="
+                return None
+            # the text written when the key has no modifiers / has modifiers, whatever the control flow that selects it
+            def when(empty):
+                def value_of(c):
+                    t = mode_empty(c)
+                    return None if t is None else (t == empty)
+                return path_template(key_dbg["body"], value_of)
+            et, ft = when(True), when(False)
+            if et == ft:
+                raise NotUnderstood("no branch on self.mode.is_empty()")
             if [(x[0], expr_text(unref(x[1])) if x[0] == "hole" else x[1]) for x in et] != [("hole", "self.name")]:
                 raise NotUnderstood("empty-mode template %s" % (et,))
             holes = [expr_text(unref(x[1])) for x in ft if x[0] == "hole"]
@@ -1009,7 +1129,13 @@ def run(ctx):
         from ..flow import arg_place
         cs = [(bb, t) for bb, t in ser.calls() if call_matches(t, r"Serializer::collect_str$")]
         others = [callee_name(t) for bb, t in ser.calls() if not call_matches(t, r"Serializer::collect_str$")]
-        ok = len(cs) == 1 and arg_place(ser, cs[0][1], 1) == "(*_1)" and not [o for o in others if re.search(r"serialize_", o or "")]
+        from ..flow import expr as mir_expr
+        ser_calls = [t for bb, t in ser.calls() if re.search(r"Serializer::serialize_\w+$", callee_name(t) or "")]
+        ok = len(cs) == 1 and arg_place(ser, cs[0][1], 1) == "(*_1)" and not ser_calls
+        if not cs and len(ser_calls) == 1 and call_matches(ser_calls[0], r"Serializer::serialize_str$"):
+            # collect_str(self) is by definition serialize_str(&self.to_string()); format!("{}", self) is the same text
+            txt = mir_expr(ser, ser_calls[0]["args"][1])
+            ok = txt == "ToString::to_string(arg1)" and (ser_calls[0]["fn"].get("path") is not None)
         ctx.instance("SERDE-CHAIN", {"link": "KeyChord::serialize -> collect_str(self)", "ok": ok})
         if not ok:
             ctx.violation("SERDE-CHAIN", "KeyChord::serialize", "collect_str", "KeyChord::serialize does not serialise exactly Display(self)", sites=[ser.loc])
